@@ -18,6 +18,8 @@ VARIANTS = {
     "big": dict(modules=["verif_common.rs"], big_arena=True),
     "macos": dict(modules=["verif_common.rs"], macos=True),
     "long": dict(modules=["verif_common.rs"], cfgs=["verif_long_strings"]),
+    "arch_a64": dict(modules=["verif_common.rs"], arch="aarch64"),
+    "arch_arm": dict(modules=["verif_common.rs"], arch="arm"),
 }
 
 AMD = "injector_core/patch_amd64.rs"
@@ -330,6 +332,7 @@ H("c15_bool", module="verif_arm64.rs", props=["C15", "C10", "C13"], fns=[(A64P, 
 H("c11_a64_range", module="verif_arm64.rs", props=["C11", "C15", "C12", "C02"], fns=[(A64P, "apply_branch_patch"), (COM, "patch_function", 0)], covers=["COVER:end", "COVER:lowest", "COVER:highest"])
 H("c02_a64_top", module="verif_arm64.rs", props=["C02", "C01", "C11", "C12", "C10"], fns=[(A64P, "replace_function_with_other_function"), (A64P, "replace_function_return_boolean")], covers=["COVER:end", "COVER:bool-then-fake"], timeout=240)
 H("c02_a64_top_fixed_addr", module="verif_arm64.rs", props=["C02", "C01", "C11", "C12", "C10"], fns=[(A64P, "replace_function_with_other_function"), (A64P, "replace_function_return_boolean")], covers=["COVER:end", "COVER:bool-then-fake"], bounded="history depth 2 (one earlier installation), one concrete entry address", timeout=240)
+H("c01_dispatch_a64", module="verif_arm64.rs", variant="arch_a64", props=["C01", "C10"], fns=[(INT, "will_execute_guard"), (INT, "will_return_boolean_guard"), (A64P, "replace_function_with_other_function"), (A64P, "replace_function_return_boolean")], covers=["COVER:end", "COVER:bool", "COVER:raw"])
 H("c15_a64_out_of_range_refused", module="verif_arm64.rs", props=["C15", "C11", "C05"], fns=[(A64P, "apply_branch_patch")], expects_panic=True, covers=[], covers_unreachable=["COVER:wrapped-branch-written"])
 
 ARM = "injector_core/patch_arm.rs"
@@ -340,6 +343,8 @@ for _n in ["c16_a32", "c16_t32_aligned", "c16_t32_unaligned"]:
     H(_n, module="verif_arm.rs", props=["C16"], fns=_ARM_FNS, min_obligations=9)
 H("c16_bool", module="verif_arm.rs", props=["C16", "C10"], fns=_ARM_FNS)
 H("c16_again", module="verif_arm.rs", props=["C16", "C02"], fns=_ARM_FNS)
+H("c16_bool_modular", module="verif_arm.rs", props=["C10", "C16"], fns=_ARM_FNS, covers=["COVER:end", "COVER:true"])
+H("c01_dispatch_arm", module="verif_arm.rs", variant="arch_arm", props=["C01", "C16", "C10"], fns=[(INT, "will_execute_guard"), (INT, "will_return_boolean_guard")] + _ARM_FNS, covers=["COVER:end", "COVER:bool", "COVER:raw"])
 
 # ------------------------------------------------------------------------------------------------
 # C10.gate: one harness per member of the enumerated signature family
